@@ -1311,14 +1311,13 @@ func (root *Root) Unsubscribe(id string) (cnt int) {
 // for the subscription is used to form a result based on the type of event
 // being published.
 func (root *Root) AddEvent(id string, event interface{}) (cnt int, err error) {
-	vars := map[string]interface{}{}
 	var ea []error
 	var failed []*Subscription
 	verifYield("publish")
 	root.subLock.Lock()
 	for _, s := range root.subscriptions {
 		if s.sub.Match(id) {
-			result, ea2 := root.resolve(event, vars, s.field, s.etype, MaxResolveDepth)
+			result, ea2 := root.resolve(event, s.eventVars(), s.field, s.etype, MaxResolveDepth)
 			ea = append(ea, ea2...)
 			cnt++
 			if err = s.sub.Send(result); err != nil {
